@@ -3,20 +3,23 @@ import itertools, math
 from fractions import Fraction
 import common
 from common import sx, q, ok, cname, cnum
-from units import U
+from units import U, BLOCK
 
 ID = 'C12'
 LEVEL = 'proof'
 TIE = {'approval.ProportionalApproval / SequentialProportionalApproval': 'correspondence',
        'convert.ScoreToSimpleVotes (corrections, truncation, aggregation), cardinal.ScoreVoting, MajorityJudgment (default, plus)': 'correspondence',
-       'cardinal.STAR, AllocatedScore*': 'implementation-side reference checks only'}
+       'cardinal.STAR (default configuration; Schulze run-off with the candidate order of the pairwise dictionary, results compared as sets)': 'correspondence',
+       'cardinal.AllocatedScore*': 'implementation-side reference checks only'}
 RULE = ('corpus; approval profiles over 2..6 candidates (1..7 distinct ballots, weights 1..5) x n 1..|C| through PAV (fresh object per '
         'call and a shared object) and SPAV; score profiles over 2..5 candidates, grades 0..5, partial ballots, through ScoreVoting and '
         'MajorityJudgment with function in {mean,sum,median_low}, unscored_value in {None,0,min}, min_count in {0,2}, truncation in {0,1,1/10}, '
-        'tie_breaking in {default,plus}; STAR (run-off of two) and allocated score against independent Python references. Declarative '
+        'tie_breaking in {default,plus}; a single-seat stream of complete ballots with grades 0..2 (level medians, close STAR run-offs); STAR through the model and (run-off of two) a reference, allocated score against an independent Python reference. Declarative '
         'clauses on implementation outputs: PAV committee = unique brute-force maximiser of the harmonic satisfaction (refusal iff not unique) '
         'and satisfies justified representation; SPAV round = unique argmax. non-trivial = more than two ballots; distinct by case hash')
-PARTIAL = ['STAR and allocated score: no Coq model; checked against Python references', 'PAV justified representation: checker-decided per case']
+PARTIAL = ['allocated score: no Coq model; checked against a Python reference',
+           'STAR: the run-off clause is proved for one seat with two untied finalists (C12_star_runoff); other run-off sizes are modelled and compared only',
+           'MJ default tie-break for more than one seat: only the median clause (C12_mj_highest_median) is proved']
 TRUSTED = []
 _shared = {}
 
@@ -46,7 +49,9 @@ def model_line(c):
         return '%d (%s %s %d)' % (U['score_voting'], cfg_sx(c['cfg']), sp_sx(c['votes']), c['n'])
     if u == 'mj':
         return '%d (%d %s %s %d)' % (U['mj'], 1 if c['plus'] else 0, cfg_sx(dict(c['cfg'], fn='median_low')), sp_sx(c['votes']), c['n'])
-    return '%d (%s %d)' % (U['pav'], '()', 0)          # star / alloc: no model (placeholder line)
+    if u == 'star':
+        return '%d (%s %d)' % (BLOCK['C12'], sp_sx(c['votes']), c['n'])
+    return '%d (%s %d)' % (U['pav'], '()', 0)          # alloc: no model (placeholder line)
 
 
 def py_ap(votes):
@@ -105,7 +110,7 @@ def impl(c):
 
 
 def canon(c, wire):
-    if c['unit'] in ('star', 'alloc'):
+    if c['unit'] == 'alloc':
         return ('n/a',)
     v = common.parse_sx(wire)
     if v[0] != 0:
@@ -125,7 +130,7 @@ def canon(c, wire):
                     run = []
                 run.append(r)
         return ('ok', tuple(out + sorted(run)))
-    if c['unit'] in ('pav', 'mj'):
+    if c['unit'] in ('pav', 'mj', 'star'):
         # the elected committee / winners as a set (order among equally placed winners is free)
         return ('ok', tuple(sorted((tuple(sorted(r)) if isinstance(r, list) else r for r in v[1]), key=repr)))
     return ('ok', tuple(tuple(sorted(r)) if isinstance(r, list) else r for r in v[1]))
@@ -184,6 +189,46 @@ def score_ref(cf, votes):
         else:
             out[cc] = lst[(len(lst) - 1) // 2]
     return out
+
+
+def mj_lists(cf, votes):
+    """per candidate the sorted list of corrected scores (no truncation), as score_ref builds them"""
+    cands = sorted({cc for b, _ in votes for cc, _ in b})
+    nv = sum(w for _, w in votes)
+    out = {}
+    for cc in cands:
+        lst = []
+        for b, w in votes:
+            for c2, s in b:
+                if c2 == cc:
+                    lst += [q(s)] * w
+        if len(lst) < cf['min_count']:
+            lst = [q(cf['bottom'])] * cf['min_count']
+        elif cf['unscored'] != 'none':
+            u = min(lst) if cf['unscored'] == 'min' else q(cf['unscored'])
+            lst += [u] * (nv - len(lst))
+        if not lst:
+            return None
+        out[cc] = sorted(lst)
+    return out
+
+
+def mj_ref(lists):
+    """majority judgment for one seat as documented (Balinski-Laraki): the highest lower median wins; equal medians:
+    remove one median grade from every candidate still level and compare the new medians, the candidates that fall
+    behind are out for good.  None when the outcome is undefined (a lasting tie, or a leader runs out of scores)."""
+    cur = {cc: list(l) for cc, l in lists.items()}
+    alive = set(cur)
+    while True:
+        if any(not cur[cc] for cc in alive):
+            return None
+        med = {cc: cur[cc][(len(cur[cc]) - 1) // 2] for cc in alive}
+        top = max(med.values())
+        alive = {cc for cc in alive if med[cc] == top}
+        if len(alive) == 1:
+            return next(iter(alive))
+        for cc in alive:
+            cur[cc].remove(med[cc])
 
 
 def alloc_ref(votes, n, quota_name):
@@ -262,6 +307,25 @@ def spec(c, io, mo):
             if plain and outside and max(ref[x] for x in outside) > min(ref[x] for x in plain):
                 c['_class'] = 'score-order'
                 return 'a better aggregate is left out'
+    if u == 'mj' and v[0] == 0 and c['n'] == 1 and q(c['cfg']['trunc']) == 0 and len(v[1]) == 1 and not isinstance(v[1][0], list):
+        lists = mj_lists(c['cfg'], c['votes'])
+        if lists is not None:
+            med = {cc: l[(len(l) - 1) // 2] for cc, l in lists.items()}
+            if med[v[1][0]] != max(med.values()):
+                c['_class'] = 'mj-median'
+                return 'majority judgment elects %d (median %s), the highest median is %s' % (v[1][0], med[v[1][0]], max(med.values()))
+            if c.get('plus'):
+                level = [cc for cc in med if med[cc] == med[v[1][0]]]
+                cnt = {cc: sum(1 for s in lists[cc] if s >= med[cc]) for cc in level}
+                if any(cnt[cc] >= cnt[v[1][0]] for cc in level if cc != v[1][0]):
+                    c['_class'] = 'mj-plus'
+                    return 'majority judgment plus elects %d with %s scores at or above the median, counts %s' % (v[1][0], cnt[v[1][0]], cnt)
+            else:
+                want = mj_ref(lists)
+                if want is not None and want != v[1][0]:
+                    c['_class'] = 'mj-default-reentry'
+                    return ('majority judgment (default tie-break) elects %d, successive median removal among the level candidates elects %d: '
+                            'a candidate that fell behind stayed in the removal loop' % (v[1][0], want))
     if u == 'star' and v[0] == 0 and c['n'] == 1:
         sums = {}
         for b, w in c['votes']:
@@ -318,9 +382,9 @@ def trunc_empties(c):
 
 
 def known_class(c, io, mo):
-    if c['unit'] not in ('star', 'alloc') and canon(c, io) != canon(c, mo):
+    if c['unit'] != 'alloc' and canon(c, io) != canon(c, mo):
         return None          # not the recorded behaviour any more
-    return {'trunc-empty': 'C12-truncation-empties', 'mj-default-stats': 'C12-mj-default-stats', 'alloc-crash': 'C12-allocated-score-crash', 'alloc-shape': 'C12-allocated-score-crash',
+    return {'trunc-empty': 'C12-truncation-empties', 'mj-default-stats': 'C12-mj-default-stats', 'mj-default-reentry': 'C12-mj-default-reentry', 'alloc-crash': 'C12-allocated-score-crash', 'alloc-shape': 'C12-allocated-score-crash',
             'star-crash': 'C12-star'}.get(c.get('_class'))
 
 
@@ -400,6 +464,24 @@ def gen_alloc_exact(rng, count):
         yield dict(unit='alloc', votes=votes, n=g if g == 3 else 3, cfg=rand_cfg(rng), quota=rng.choice(['hare', 'droop']))
 
 
+def gen_focus(rng, count):
+    """boundary stream for the single-seat clauses: complete score ballots over 3..4 candidates with few grades, so that
+    level medians (majority judgment tie-breaks, three-way ties included) and close STAR run-offs are frequent"""
+    for _ in range(count):
+        m = rng.randint(3, 4)
+        votes, seen = [], set()
+        for _ in range(rng.randint(3, 6)):
+            b = [[cc, rng.randint(0, 2)] for cc in range(1, m + 1)]
+            if repr(b) not in seen:
+                seen.add(repr(b))
+                votes.append([b, rng.randint(1, 2)])
+        u = rng.choice(['mj', 'mj', 'star'])
+        c = dict(unit=u, votes=votes, n=1, cfg=dict(fn='median_low', unscored='none', min_count=0, trunc='0', bottom='0'))
+        if u == 'mj':
+            c['plus'] = rng.random() < 0.3
+        yield c
+
+
 def corpus():
     import os, json, glob
     for p in sorted(glob.glob(os.path.join(common.VERIF, 'corpus', ID, '*.json'))):
@@ -410,6 +492,7 @@ def explore(ctx, widen=1):
     kw = dict(canon=canon, nontrivial=nontrivial, spec=spec, known_class=known_class, limit=10)
     ctx.differential('corpus', corpus(), model_line, impl, **kw)
     ctx.differential('random', gen(ctx.rng, ctx.n(3000, 40000) * widen), model_line, impl, **kw)
+    ctx.differential('single-seat-level', gen_focus(ctx.rng, ctx.n(1500, 15000) * widen), model_line, impl, **kw)
     ctx.differential('alloc-exact-quota', gen_alloc_exact(ctx.rng, ctx.n(3000, 20000) * widen), model_line, impl, **kw)
 
 
